@@ -252,6 +252,8 @@ class Formatter(FormatterInterface):
             "acosh": "arccosh",
             "asinh": "arcsinh",
             "atanh": "arctanh",
+            "min_value": "fmin",
+            "max_value": "fmax",
         }
         function = function_map.get(f.function, f.function)
         args = [self(arg) for arg in f.args]
